@@ -362,6 +362,18 @@ func prepare() {
 		"SELECT a, b FROM (SELECT a, b FROM u) s JOIN v ON s.a = v.a",
 		"WITH c AS (SELECT id FROM t) SELECT id FROM c",
 		"INSERT INTO t (a) VALUES (1)",
+		// one statement per operator level and expression form: whatever a production counts while it runs (depth,
+		// look-ahead) is back at rest when the call returns, whichever production returned last
+		"SELECT a FROM t WHERE b BETWEEN 1 AND 10 OR c IS NULL",
+		"SELECT a FROM t WHERE NOT (a = 1 AND b <> 2) OR c LIKE 'x%' OR d IN (1, 2)",
+		"SELECT CASE WHEN a > 1 THEN 'x' ELSE 'y' END, CAST(b AS INT), c || d, -e + f * 2 FROM t",
+		"SELECT f(a, g(b)), COUNT(*) FILTER (WHERE a > 1), SUM(a) OVER (PARTITION BY b ORDER BY c) FROM t GROUP BY a HAVING COUNT(*) > 1 OR a = 2",
+		"SELECT a FROM t WHERE EXISTS (SELECT 1 FROM u WHERE u.a = t.a OR u.b = 1) ORDER BY a DESC LIMIT 3",
+		"UPDATE t SET a = 1 WHERE b = 2 OR c = 3",
+		"DELETE FROM t WHERE a = 1 OR b = 2",
+		"SELECT a FROM t UNION SELECT b FROM u WHERE c = 1 OR d = 2",
+		"MERGE INTO t USING s ON t.a = s.a OR t.b = s.b WHEN MATCHED THEN DELETE",
+		"CREATE TABLE t (id INT PRIMARY KEY, a INT CHECK (a > 0 OR a IS NULL))",
 	}
 	// failing statements: the error sits inside each kind of nesting construct
 	bad := []string{
@@ -445,6 +457,23 @@ func prepare() {
 		"\t\t-- c\n\t\t'abc",
 		"-- c\n\n   \"open",
 	}
+	tokSpell["badlex"] = []string{
+		"SELECT 'abc\\q' FROM t",
+		"SELECT 'abc\\",
+		"SELECT \"ident",
+		"SELECT `tick",
+		"SELECT a /* open",
+		"SELECT $tag$ body",
+		"SELECT 12e FROM t",
+		"SELECT a ^^ \x01",
+		"SELECT '''triple open",
+		"SELECT 'it''s \\z",
+	}
+	tokSpell["literals"] = []string{
+		"SELECT 'x', \"q\", `b`, $$d$$, $t$e$t$, 1.5e3, 'it''s', \"a\"\"b\" FROM t",
+		"'x'",
+		"\"q\" 'y'",
+	}
 	tokSpell["long"] = []string{
 		"SELECT " + strings.Repeat("a, ", 130) + "a FROM t",
 		"\t SELECT " + strings.Repeat("a,\n ", 120) + "a FROM t",
@@ -454,7 +483,7 @@ func prepare() {
 			t, _ := tokenizer.New()
 			_, err := t.Tokenize([]byte(s))
 			comLen[s] = len(t.Comments)
-			if (err != nil) != (class == "badml") || (len(t.Comments) > 0) != (class == "commented" || class == "badml") {
+			if (err != nil) != (class == "badml" || class == "badlex") || (len(t.Comments) > 0) != (class == "commented" || class == "badml") {
 				core.Fatalf("tokenizer spelling %q is not in class %s (err=%v, comments=%d)", s, class, err, len(t.Comments))
 			}
 		}
